@@ -51,6 +51,14 @@ def encodeAll (fs : List Frame) : Bytes := (fs.map encode).flatten
 def writeFrame (f : Frame) : Option Bytes :=
   if f.data.length > crossnode.MaxFrameSize then none else some (encode f)
 
+/-- Hand every frame to `WriteFrame` in turn: `(accepted?, bytes written)`. -/
+def writeAll : List Frame → List Bool × Bytes
+  | [] => ([], [])
+  | f :: fs =>
+    match writeFrame f with
+    | none => (false :: (writeAll fs).1, (writeAll fs).2)
+    | some w => (true :: (writeAll fs).1, w ++ (writeAll fs).2)
+
 /-- What a writer can hand to `WriteFrame`: a 16-byte id, a type byte, a payload within the limit. -/
 def Frame.WF (f : Frame) : Prop :=
   f.id.length = idLen ∧ f.ty < 256 ∧ f.data.length ≤ crossnode.MaxFrameSize
